@@ -1,7 +1,270 @@
+(* C15 -- proofs: the search, the in-place loops and the refinement of the
+   list operations to the sorted-multiset reference. *)
 From Coq Require Import ZArith List Bool Lia.
 From GoCoap Require Import Base.Bytes Gen.OptConsts Opt.Model Opt.Spec.
 Import ListNotations.
 Open Scope Z_scope.
 
-Lemma find_nil id : find [] id = None.
+Ltac Zify.zify_post_hook ::= Z.to_euclidean_division_equations.
+
+(* destruct every boolean comparison in the goal *)
+Ltac bdestr :=
+  repeat match goal with
+  | |- context [?a <? ?b] => destruct (Z.ltb_spec a b)
+  | |- context [?a <=? ?b] => destruct (Z.leb_spec a b)
+  | |- context [?a =? ?b] => destruct (Z.eqb_spec a b)
+  end; cbn [andb orb negb].
+Ltac bdestr_in H :=
+  repeat match type of H with
+  | context [?a <? ?b] => destruct (Z.ltb_spec a b)
+  | context [?a <=? ?b] => destruct (Z.leb_spec a b)
+  | context [?a =? ?b] => destruct (Z.eqb_spec a b)
+  end; cbn [andb orb negb] in H.
+
+(* ------------------------------------------------------------------ *)
+(* A. lists by index                                                   *)
+
+Lemma len_nonneg {A} (l : list A) : 0 <= len l.
+Proof. unfold len; lia. Qed.
+Lemma len_nil {A} : len (@nil A) = 0.
 Proof. reflexivity. Qed.
+Lemma len_cons {A} (x : A) l : len (x :: l) = len l + 1.
+Proof. unfold len; cbn [length]; lia. Qed.
+Lemma len_app {A} (a b : list A) : len (a ++ b) = len a + len b.
+Proof. unfold len; rewrite app_length; lia. Qed.
+Lemma len_0 {A} (l : list A) : len l = 0 -> l = [].
+Proof. destruct l; [reflexivity|rewrite len_cons; pose proof (len_nonneg l); lia]. Qed.
+
+Lemma nthz_neg l i : i < 0 -> nthz l i = zero_opt.
+Proof. intros H; unfold nthz. destruct (Z.ltb_spec i 0); [reflexivity|lia]. Qed.
+Lemma nthz_nil i : nthz [] i = zero_opt.
+Proof. unfold nthz. destruct (i <? 0); [reflexivity|]. destruct (Z.to_nat i); reflexivity. Qed.
+Lemma nthz_0 x l : nthz (x :: l) 0 = x.
+Proof. reflexivity. Qed.
+Lemma nthz_S x l i : 0 <= i -> nthz (x :: l) (i + 1) = nthz l i.
+Proof.
+  intros H; unfold nthz. destruct (Z.ltb_spec (i + 1) 0); [lia|]. destruct (Z.ltb_spec i 0); [lia|].
+  replace (Z.to_nat (i + 1)) with (S (Z.to_nat i)) by lia. reflexivity.
+Qed.
+Lemma nthz_cons x l i : 0 < i -> nthz (x :: l) i = nthz l (i - 1).
+Proof. intros H. replace i with ((i - 1) + 1) at 1 by lia. apply nthz_S; lia. Qed.
+Lemma nthz_beyond l i : len l <= i -> nthz l i = zero_opt.
+Proof.
+  intros H; unfold nthz. destruct (i <? 0); [reflexivity|]. apply nth_overflow. unfold len in H; lia.
+Qed.
+Lemma nthz_app_l a b i : i < len a -> nthz (a ++ b) i = nthz a i.
+Proof.
+  intros H; unfold nthz. destruct (Z.ltb_spec i 0); [reflexivity|]. apply app_nth1. unfold len in H; lia.
+Qed.
+Lemma nthz_app_r a b i : len a <= i -> nthz (a ++ b) i = nthz b (i - len a).
+Proof.
+  intros H; unfold nthz. pose proof (len_nonneg a).
+  destruct (Z.ltb_spec i 0); [lia|]. destruct (Z.ltb_spec (i - len a) 0); [lia|].
+  rewrite app_nth2 by (unfold len in H; lia). f_equal. unfold len; lia.
+Qed.
+
+Lemma list_ext (a b : list opt) :
+  len a = len b -> (forall i, 0 <= i < len a -> nthz a i = nthz b i) -> a = b.
+Proof.
+  revert b; induction a as [|x a IH]; intros b Hl Hn.
+  - symmetry; apply len_0; rewrite <- Hl; reflexivity.
+  - destruct b as [|y b]; [rewrite len_cons, len_nil in Hl; pose proof (len_nonneg a); lia|].
+    rewrite !len_cons in Hl. f_equal.
+    + specialize (Hn 0). rewrite !nthz_0 in Hn. apply Hn. rewrite len_cons; pose proof (len_nonneg a); lia.
+    + apply IH; [lia|]. intros i Hi. specialize (Hn (i + 1)).
+      rewrite !nthz_S in Hn by lia. apply Hn. rewrite len_cons; lia.
+Qed.
+
+Lemma len_upd_nat l n o : length (upd_nat l n o) = length l.
+Proof. revert n; induction l as [|x l IH]; intros [|n]; cbn [upd_nat length]; auto. Qed.
+Lemma len_upd l i o : len (upd l i o) = len l.
+Proof. unfold upd, len. destruct (i <? 0); [reflexivity|]. rewrite len_upd_nat; reflexivity. Qed.
+Lemma nth_upd_nat l n o m : (n < length l)%nat ->
+  nth m (upd_nat l n o) zero_opt = if Nat.eqb m n then o else nth m l zero_opt.
+Proof.
+  revert n m; induction l as [|x l IH]; intros n m H; [cbn in H; lia|].
+  destruct n as [|n]; destruct m as [|m]; cbn [upd_nat nth Nat.eqb]; try reflexivity.
+  apply IH. cbn in H; lia.
+Qed.
+Lemma nthz_upd l i o j : 0 <= i < len l ->
+  nthz (upd l i o) j = if j =? i then o else nthz l j.
+Proof.
+  intros H. unfold upd, nthz. destruct (Z.ltb_spec i 0); [lia|].
+  destruct (Z.ltb_spec j 0).
+  - destruct (Z.eqb_spec j i); [lia|reflexivity].
+  - rewrite nth_upd_nat by (unfold len in H; lia).
+    destruct (Z.eqb_spec j i) as [->|Hne].
+    + rewrite Nat.eqb_refl; reflexivity.
+    + destruct (Nat.eqb_spec (Z.to_nat j) (Z.to_nat i)); [lia|reflexivity].
+Qed.
+
+Lemma len_take {A} (l : list A) n : 0 <= n <= len l -> len (take l n) = n.
+Proof. intros H; unfold take, len in *. rewrite firstn_length. lia. Qed.
+Lemma len_drop {A} (l : list A) n : 0 <= n <= len l -> len (drop l n) = len l - n.
+Proof. intros H; unfold drop, len in *. rewrite skipn_length. lia. Qed.
+Lemma take_drop {A} (l : list A) n : take l n ++ drop l n = l.
+Proof. apply firstn_skipn. Qed.
+Lemma nthz_take l n i : i < n -> n <= len l -> nthz (take l n) i = nthz l i.
+Proof.
+  intros H Hn. destruct (Z.ltb_spec i 0) as [Hi|Hi]; [rewrite !nthz_neg by lia; reflexivity|].
+  rewrite <- (take_drop l n) at 2. rewrite nthz_app_l; [reflexivity|]. rewrite len_take; lia.
+Qed.
+Lemma nthz_drop l n i : 0 <= i -> 0 <= n <= len l -> nthz (drop l n) i = nthz l (i + n).
+Proof.
+  intros H Hn. rewrite <- (take_drop l n) at 2. rewrite nthz_app_r by (rewrite len_take; lia).
+  rewrite len_take by lia. f_equal; lia.
+Qed.
+Lemma take_all {A} (l : list A) n : len l <= n -> take l n = l.
+Proof. intros H. unfold take. apply firstn_all2. unfold len in H; lia. Qed.
+Lemma drop_0 {A} (l : list A) : drop l 0 = l.
+Proof. reflexivity. Qed.
+Lemma drop_all {A} (l : list A) n : len l <= n -> drop l n = [].
+Proof. intros H. unfold drop. apply skipn_all2. unfold len in H; lia. Qed.
+
+(* the splice: l[:a] ++ mid ++ l[c:] *)
+Definition splice (l : list opt) (a c : Z) (mid : list opt) : list opt := take l a ++ mid ++ drop l c.
+Lemma len_splice l a c mid : 0 <= a <= len l -> 0 <= c <= len l ->
+  len (splice l a c mid) = a + len mid + (len l - c).
+Proof. intros Ha Hc. unfold splice. rewrite !len_app, len_take, len_drop by lia. lia. Qed.
+Lemma nthz_splice l a c mid j : 0 <= a <= len l -> 0 <= c <= len l -> 0 <= j ->
+  nthz (splice l a c mid) j =
+    if j <? a then nthz l j else if j <? a + len mid then nthz mid (j - a) else nthz l (j - a - len mid + c).
+Proof.
+  intros Ha Hc Hj. unfold splice. pose proof (len_nonneg mid).
+  destruct (Z.ltb_spec j a).
+  - rewrite nthz_app_l by (rewrite len_take; lia). apply nthz_take; lia.
+  - rewrite nthz_app_r by (rewrite len_take; lia). rewrite len_take by lia.
+    destruct (Z.ltb_spec j (a + len mid)).
+    + rewrite nthz_app_l by lia. reflexivity.
+    + rewrite nthz_app_r by lia. rewrite nthz_drop by lia. f_equal; lia.
+Qed.
+
+(* ------------------------------------------------------------------ *)
+(* B. findPosition                                                     *)
+
+Definition sorted (l : list opt) : Prop :=
+  forall i j, 0 <= i -> i <= j -> j < len l -> oid (nthz l i) <= oid (nthz l j).
+
+(* mn = last index with a smaller number, mx = first index with a larger one *)
+Definition is_split (l : list opt) (id mn mx : Z) : Prop :=
+  -1 <= mn /\ mn < mx /\ mx <= len l /\
+  (forall k, 0 <= k <= mn -> oid (nthz l k) < id) /\
+  (forall k, mn < k < mx -> oid (nthz l k) = id) /\
+  (forall k, mx <= k < len l -> id < oid (nthz l k)).
+
+Lemma scan_up_spec l id : forall fuel p,
+  0 <= p <= len l -> len l - p < Z.of_nat fuel ->
+  (forall k, 0 <= k < p -> oid (nthz l k) <= id) ->
+  let r := scan_up fuel l id p in
+  p <= r <= len l /\ (forall k, 0 <= k < r -> oid (nthz l k) <= id) /\ (r < len l -> id < oid (nthz l r)).
+Proof.
+  induction fuel as [|f IH]; intros p Hp Hf Hle; [lia|].
+  cbn [scan_up]. destruct (Z.ltb_spec p (len l)) as [Hlt|Hge]; cbn [andb].
+  - destruct (Z.leb_spec (oid (nthz l p)) id) as [Hid|Hid].
+    + specialize (IH (p + 1)). cbv zeta in IH. destruct IH as (H1 & H2 & H3); [lia|lia| |].
+      * intros k Hk. destruct (Z.eq_dec k p) as [->|]; [assumption|apply Hle; lia].
+      * repeat split; [lia|lia|assumption|assumption].
+    + cbv zeta. repeat split; [lia|lia|assumption|intros _; lia].
+  - cbv zeta. repeat split; [lia|lia|assumption|lia].
+Qed.
+
+Lemma scan_down_spec l id : forall fuel p,
+  -1 <= p < len l -> p + 1 < Z.of_nat fuel ->
+  (forall k, p < k < len l -> id <= oid (nthz l k)) ->
+  let r := scan_down fuel l id p in
+  -1 <= r <= p /\ (forall k, r < k < len l -> id <= oid (nthz l k)) /\ (0 <= r -> oid (nthz l r) < id).
+Proof.
+  induction fuel as [|f IH]; intros p Hp Hf Hge; [lia|].
+  cbn [scan_down]. destruct (Z.leb_spec 0 p) as [H0|H0]; cbn [andb].
+  - destruct (Z.leb_spec id (oid (nthz l p))) as [Hid|Hid].
+    + specialize (IH (p - 1)). cbv zeta in IH. destruct IH as (H1 & H2 & H3); [lia|lia| |].
+      * intros k Hk. destruct (Z.eq_dec k p) as [->|]; [assumption|apply Hge; lia].
+      * repeat split; [lia|lia|assumption|assumption].
+    + cbv zeta. repeat split; [lia|lia|assumption|intros _; lia].
+  - cbv zeta. repeat split; [lia|lia|assumption|lia].
+Qed.
+
+(* from a pivot with everything before it <= id and everything after it >= id,
+   the two scans return the split *)
+Lemma scans_split l id p : sorted l -> 0 <= p < len l ->
+  (forall k, 0 <= k < p -> oid (nthz l k) <= id) ->
+  (forall k, p < k < len l -> id <= oid (nthz l k)) ->
+  is_split l id (scan_down (S (length l)) l id p) (scan_up (S (length l)) l id p).
+Proof.
+  intros Hs Hp Hlo Hhi.
+  destruct (scan_up_spec l id (S (length l)) p) as (U1 & U2 & U3); [lia|unfold len; lia|assumption|].
+  destruct (scan_down_spec l id (S (length l)) p) as (D1 & D2 & D3); [lia|unfold len in *; lia|assumption|].
+  set (mx := scan_up _ _ _ _) in *. set (mn := scan_down _ _ _ _) in *.
+  assert (Hmnmx : mn < mx).
+  { destruct (Z.eq_dec mx p) as [E|E]; [|lia].
+    (* scan_up did not move: l[p] > id, so scan_down moved *)
+    assert (id < oid (nthz l p)) by (rewrite <- E; apply U3; lia).
+    destruct (Z.eq_dec mn p) as [E2|E2]; [|lia].
+    assert (oid (nthz l mn) < id) by (apply D3; lia). rewrite E2 in *. lia. }
+  assert (A : forall k, 0 <= k <= mn -> oid (nthz l k) < id).
+  { intros k Hk. destruct (Z.eq_dec k mn) as [->|]; [apply D3; lia|].
+    assert (oid (nthz l k) <= oid (nthz l mn)) by (apply Hs; lia).
+    assert (oid (nthz l mn) < id) by (apply D3; lia). lia. }
+  assert (B : forall k, mn < k < mx -> oid (nthz l k) = id).
+  { intros k Hk. assert (oid (nthz l k) <= id) by (apply U2; lia).
+    assert (id <= oid (nthz l k)) by (apply D2; lia). lia. }
+  assert (C : forall k, mx <= k < len l -> id < oid (nthz l k)).
+  { intros k Hk. assert (id < oid (nthz l mx)) by (apply U3; lia).
+    assert (oid (nthz l mx) <= oid (nthz l k)) by (apply Hs; lia). lia. }
+  unfold is_split. refine (conj _ (conj _ (conj _ (conj A (conj B C))))); lia.
+Qed.
+
+Definition inv (l : list opt) (id pivot minI maxI : Z) : Prop :=
+  0 <= minI /\ minI <= pivot /\ pivot <= maxI /\ maxI <= len l /\ pivot < len l /\
+  (oid (nthz l minI) < id \/ pivot = minI /\ minI = 0) /\
+  (maxI = len l \/ id < oid (nthz l maxI)) /\
+  (pivot < maxI \/ maxI - minI <= 1).
+Definition mu (pivot minI maxI : Z) : Z := 2 * (maxI - minI) + (if pivot =? minI then 1 else 0).
+
+(* what findPosition returns: the split, with "nothing larger" written -1 *)
+Definition fp_spec (l : list opt) (id : Z) (r : Z * Z) : Prop :=
+  exists mx, is_split l id (fst r) mx /\ snd r = (if mx =? len l then -1 else mx).
+
+Lemma fp_loop_spec l id : sorted l -> forall fuel pivot minI maxI,
+  inv l id pivot minI maxI -> mu pivot minI maxI < Z.of_nat fuel ->
+  fp_spec l id (fp_loop fuel l id pivot minI maxI).
+Proof.
+  intros Hs. induction fuel as [|f IH]; intros pivot minI maxI Hinv Hmu.
+  { unfold mu in Hmu. destruct Hinv as (?&?&?&?&?&?&?&?). destruct (pivot =? minI); lia. }
+  cbn [fp_loop].
+  destruct Hinv as (I1 & I2 & I3 & I4 & I5 & I6 & I7 & I8).
+  destruct ((id =? oid (nthz l pivot)) || (Z.quot (maxI - minI) 2 =? 0)) eqn:Ex.
+  - (* exit *)
+    exists (scan_up (S (length l)) l id pivot). split; [|reflexivity]. cbn [fst].
+    apply scans_split; [assumption|lia| |].
+    + intros k Hk. apply orb_true_iff in Ex as [Ex|Ex].
+      * apply Z.eqb_eq in Ex. rewrite Ex. apply Hs; lia.
+      * apply Z.eqb_eq in Ex. assert (maxI - minI <= 1) by lia.
+        destruct I6 as [I6|[I6a I6b]]; [|lia].
+        assert (oid (nthz l k) <= oid (nthz l minI)) by (apply Hs; lia). lia.
+    + intros k Hk. apply orb_true_iff in Ex as [Ex|Ex].
+      * apply Z.eqb_eq in Ex. rewrite Ex. apply Hs; lia.
+      * apply Z.eqb_eq in Ex. assert (maxI - minI <= 1) by lia.
+        destruct I7 as [I7|I7]; [lia|].
+        assert (oid (nthz l maxI) <= oid (nthz l k)) by (apply Hs; lia). lia.
+  - apply orb_false_iff in Ex as [Ex1 Ex2]. apply Z.eqb_neq in Ex1. apply Z.eqb_neq in Ex2.
+    assert (Hd : 2 <= maxI - minI) by lia.
+    destruct (Z.ltb_spec id (oid (nthz l pivot))) as [Hlt|Hge].
+    + (* maxI := pivot *)
+      apply IH.
+      * unfold inv. repeat split; try lia; try (right; assumption).
+      * unfold mu in *. destruct (Z.eqb_spec pivot minI); bdestr; lia.
+    + (* minI := pivot *)
+      assert (Hgt : oid (nthz l pivot) < id) by lia.
+      apply IH.
+      * unfold inv. repeat split; try lia; try (left; assumption); try assumption.
+      * unfold mu in *. destruct (Z.eqb_spec pivot minI); bdestr; lia.
+Qed.
+
+Theorem find_position_spec l id : sorted l -> l <> [] -> fp_spec l id (find_position l id).
+Proof.
+  intros Hs Hne. destruct l as [|x r]; [congruence|].
+  unfold find_position. apply fp_loop_spec; [assumption| |].
+  - unfold inv. pose proof (len_nonneg r). rewrite len_cons. repeat split; try lia.
+  - unfold mu, fp_fuel. rewrite len_cons. unfold len. cbn [length Z.eqb]. lia.
+Qed.
